@@ -262,8 +262,11 @@ func (x *Session) netDeliver(it recvItem) (bool, *Hang) {
 		case errors.Is(it.err, io.EOF):
 			errc <- ns.stream.CloseSend()
 		default:
-			// transport failure: the connection of this session goes away
-			errc <- ns.conn.Close()
+			// transport failure: the connection of this session goes away (a client that
+			// had stopped reading sees the failure too)
+			err := ns.conn.Close()
+			x.ResumeReads()
+			errc <- err
 		}
 	}()
 	t := time.NewTimer(Watchdog)
@@ -418,4 +421,28 @@ func quiesceGID(gid int64, what string) *Hang {
 		runtime.Gosched()
 		time.Sleep(50 * time.Microsecond)
 	}
+}
+
+// SendAsync sends a request from the client side without waiting for the send to
+// complete: under HTTP/2 flow control (the server has stopped reading because it cannot
+// write) a send legitimately blocks until the stream is torn down.
+func (x *Session) SendAsync(req *spb.ModifyRequest) {
+	ns := x.n
+	go func() {
+		ns.sendMu.Lock()
+		defer ns.sendMu.Unlock()
+		ns.stream.Send(req)
+	}()
+}
+
+// ServerWriteBlocked reports whether a goroutine of this session's handler is parked in
+// gRPC's flow-control wait for write quota (the client is not reading).
+func (x *Session) ServerWriteBlocked() bool {
+	gid := x.handlerGID.Load()
+	for _, g := range Descendants(Parse(Dump()), gid) {
+		if g.State == "select" && g.Has("transport.(*writeQuota).get") {
+			return true
+		}
+	}
+	return false
 }
